@@ -665,6 +665,27 @@ def r18_4(ctx, run, rule='R18.4'):
                     pf = PathFacts(norm_conds(q.conds))
                     if pf.infeasible():
                         continue
+                    # `T::try_from(x).map_or(K, |y| ..)`: the default K answers for exactly the x outside T's range, i.e. an unsigned x above
+                    # i64::MAX (then the signed other operand is smaller) or a negative signed x (then the unsigned other operand is larger)
+                    rr_ = deref_all(q.ret)
+                    if rr_[0] == 'call' and canon(rr_[1]).split('::')[-1] in ('map_or', 'map_or_else', 'unwrap_or') and len(rr_[2]) >= 2:
+                        tf_ = deref_all(rr_[2][0])
+                        if tf_[0] == 'call' and canon(tf_[1]).split('::')[-1] == 'try_from' and tf_[2]:
+                            x_ = tf_[2][0]
+                            # which operand is converted: field of `self` (parameter 1) or of `other` (parameter 2)
+                            ps_ = {s_[1] for s_ in subterms(x_) if s_[0] == 'init' and isinstance(s_[1], int)}
+                            dflt = deref_all(rr_[2][1])
+                            dv = dflt[1][2] if agg_variant(dflt) and dflt[1][1].endswith('cmp::Ordering') else None
+                            if ps_ in ({1}, {2}) and dv is not None:
+                                x_is_left = ps_ == {1}
+                                x_kind = l if x_is_left else r
+                                # x out of range: unsigned x too large (x is the bigger operand) / signed x negative (x is the smaller operand)
+                                x_bigger = (x_kind == 'UInt64')
+                                want = ('Greater' if x_bigger else 'Less') if x_is_left else ('Less' if x_bigger else 'Greater')
+                                (run.proved if dv == want else run.violation)(rule, b.path, f'cross[{l},{r}]/conversion-fails', f'the {x_kind} operand does not fit the other type -> {want}' if dv == want else
+                                    f'when the {x_kind} operand does not fit the other operand\'s type ({"above i64::MAX" if x_bigger else "negative"}) the result is {dv}; it must be {want}', f'{b.file}:{b.line}')
+                            else:
+                                run.undecided(rule, b.path, f'cross[{l},{r}]/conversion-fails', 'the outcome for an operand that does not fit the other type is not a constant order this rule reads: not decided', f'{b.file}:{b.line}')
                     casts = [s for s in subterms(q.ret) if s[0] == 'cast' and s[1] == 'IntToInt']
                     if casts:
                         # the signed operand may be reinterpreted as u64 only where it is known to be >= 0
